@@ -99,7 +99,8 @@ class Gen:
                 # index arithmetic that is none of the recognised forms: the member read is known only at run time
                 self.features.add("gtxns_opaque_index")
                 a, b = r.choice([(0, 0), (0, 1), (1, 0), (1, 1), (2, 1), (1, 2)])
-                shape = r.choice(["c+c", "c-c", "c+load", "load+c", "c+field", "field+c", "size-c"])
+                shape = r.choice(["c+c", "c-c", "c+load", "load+c", "c+field", "field+c", "size-c",
+                                  "gi+field", "field+gi", "gi+load", "gi-field", "gi+c+c"])
                 if shape == "c+c":
                     ix = self.int_ins(a) + self.int_ins(b) + [("+",)]
                 elif shape == "c-c":
@@ -112,6 +113,16 @@ class Gen:
                     ix = self.int_ins(a) + [("txn", "NumAppArgs"), ("+",)]
                 elif shape == "field+c":
                     ix = [("txn", "NumAppArgs")] + self.int_ins(a) + [("+",)]
+                elif shape == "gi+field":
+                    ix = [("txn", "GroupIndex"), ("txn", "NumAppArgs"), ("+",)]
+                elif shape == "field+gi":
+                    ix = [("txn", "NumAppArgs"), ("txn", "GroupIndex"), ("+",)]
+                elif shape == "gi+load":
+                    ix = [("txn", "GroupIndex"), ("load", 200 + r.randint(0, 9)), ("+",)]
+                elif shape == "gi-field":
+                    ix = [("txn", "GroupIndex"), ("txn", "NumAppArgs"), ("-",)]
+                elif shape == "gi+c+c":
+                    ix = [("txn", "GroupIndex")] + self.int_ins(a) + [("+",)] + self.int_ins(1) + [("+",)]
                 else:
                     ix = [("global", "GroupSize")] + self.int_ins(1 + a) + [("-",)]
                 return ix + [("gtxns", field)], ("opaque",)
